@@ -215,7 +215,7 @@ Proof.
   - (* OverwriteIds *)
     apply nodupZ_NoDup in Hwf. eapply inv_init; eauto.
   - (* SetAttr *)
-    eapply inv_init; eauto.
+    destruct (data_view a); [|discriminate]. eapply inv_init; eauto.
 Qed.
 
 Theorem inv_step c a o : cfg_ok c = true -> Inv a -> op_wf a o = true -> Inv (step_total c a o).
